@@ -71,9 +71,21 @@ func c03Units(tier string) []gen.Unit {
 }
 
 type c03State struct {
-	rd rec.Dest
-	ps ref.Parser
+	rd, rdc rec.Dest
+	ps      ref.Parser
 }
+
+// c03Canary: a small graphic with both metadata chunks, register traffic and a path with an arc;
+// c03CanaryCalls: what the specification says it is.
+var c03Canary = append(append(append([]byte{}, gen.Magic...), 0x04, 0x0a, 0x00, 0x50, 0x50, 0xb0, 0xb0, 0x08, 0x02, 0x01, 0x7c, 0x30), c11Other[5:]...)
+var c03CanaryCalls = func() []rec.Call {
+	var ps ref.Parser
+	p := ps.Parse(c03Canary)
+	if !p.OK || len(p.Calls) < 5 {
+		panic("harness: the canary graphic of C03 is not well formed: " + p.Reason)
+	}
+	return append([]rec.Call(nil), p.Calls...)
+}()
 
 func c03Check(w *mc.W, st *c03State, b []byte, unit string) {
 	w.Eval()
@@ -116,6 +128,15 @@ func c03Check(w *mc.W, st *c03State, b []byte, unit string) {
 			w.Fail("panic:DecodeViewBox", fmt.Sprintf("DecodeViewBox panicked on %s: %v", hexShort(b), pnc), mkBytesCase(b, unit))
 		} else if (verr == nil) != p.MetaOK {
 			w.Fail(fmt.Sprintf("accept-mismatch:DecodeViewBox-accepts=%v", verr == nil), fmt.Sprintf("DecodeViewBox(%s) err=%v, the metadata section is well formed: %v (%s)", hexShort(b), verr, p.MetaOK, p.Reason), mkBytesCase(b, unit))
+		}
+	}
+	// nothing is carried from one input to the next: right after every other input (chosen by its
+	// content; see C13) a fixed small graphic decodes to exactly what the specification says
+	if len(b) > 0 && (len(b)+int(b[len(b)-1]))%2 == 1 {
+		st.rdc.ResetLog()
+		cerr, cpnc, _ := safeDecode(&st.rdc, c03Canary)
+		if i := firstDiff(st.rdc.Calls, c03CanaryCalls); cpnc != nil || cerr != nil || i >= 0 {
+			w.Fail("carried-over-from-previous-input", fmt.Sprintf("a fixed graphic decoded right after input %s: err=%v panic=%v, call %d is %s, specification says %s", hexShort(b), cerr, cpnc, i, callAt(st.rdc.Calls, i), callAt(c03CanaryCalls, i)), mkBytesCase(b, unit))
 		}
 	}
 	h := mc.NewHasher()
